@@ -200,6 +200,8 @@ func runCase(c *Case) (res string) {
 		return runTmpl(c, tree)
 	case "wide":
 		return runWide(c)
+	case "rxsel":
+		return runRxSel(c, tree)
 	case "ctx":
 		e, err := compileCase(c)
 		if err != nil {
